@@ -521,8 +521,16 @@ func c04Run(c c04Case, r *hx.Rec) error {
 				b2, e2 := hx.RefCJSON(m2.JV())
 				if e1 == nil && e2 == nil && !bytes.Equal(b1, b2) {
 					mb2 := &intoto.Metablock{Signed: m2.Lib(), Signatures: mb.Signatures}
+					older := *sf // the entries of the dumped file, judged over the changed content
+					older.SignBytes = b2
 					for name := range model {
-						if err := mb2.VerifySignature(hx.PoolKey(name).Pub()); err == nil {
+						k := hx.PoolKey(name)
+						if older.TruthSigWithID(k.Priv.Public(), k.KeyID) {
+							// the change undid an earlier edit: an outdated entry of this key covers exactly this content
+							r.Label("inmemory-mutation-restores-signed-content")
+							continue
+						}
+						if err := mb2.VerifySignature(k.Pub()); err == nil {
 							return fmt.Errorf("in-memory content changed after signing, VerifySignature(%s) still succeeds", name)
 						}
 					}
